@@ -145,4 +145,60 @@ def utf8Run : Utf8State → List Nat → Bool
 /-- `String::from_utf8(bytes).is_ok()`. -/
 def validUtf8 (b : List Nat) : Bool := utf8Run ⟨0, 0x80, 0xBF⟩ b
 
+/-! ### `String::from_utf8_lossy` (`Utf8Chunks`): every maximal invalid sequence becomes U+FFFD -/
+
+def isCont (b : Nat) : Bool := 0x80 ≤ b && b ≤ 0xBF
+
+/-- at a non-empty input: `(true, w)` = a well-formed character of `w` bytes starts here,
+    `(false, n)` = an invalid sequence of `n ≥ 1` bytes (the lead byte plus the continuation bytes
+    accepted before the first mismatch) -/
+def utf8Chunk : List Nat → Bool × Nat
+  | [] => (true, 0)
+  | b0 :: rest =>
+    if b0 < 0x80 then (true, 1)
+    else if 0xC2 ≤ b0 && b0 ≤ 0xDF then
+      (match rest with
+       | b1 :: _ => if isCont b1 then (true, 2) else (false, 1)
+       | [] => (false, 1))
+    else if 0xE0 ≤ b0 && b0 ≤ 0xEF then
+      (match rest with
+       | b1 :: r1 =>
+         let ok2 :=
+           (b0 == 0xE0 && 0xA0 ≤ b1 && b1 ≤ 0xBF) ||
+           (0xE1 ≤ b0 && b0 ≤ 0xEC && isCont b1) ||
+           (b0 == 0xED && 0x80 ≤ b1 && b1 ≤ 0x9F) ||
+           (0xEE ≤ b0 && b0 ≤ 0xEF && isCont b1)
+         if !ok2 then (false, 1)
+         else (match r1 with
+           | b2 :: _ => if isCont b2 then (true, 3) else (false, 2)
+           | [] => (false, 2))
+       | [] => (false, 1))
+    else if 0xF0 ≤ b0 && b0 ≤ 0xF4 then
+      (match rest with
+       | b1 :: r1 =>
+         let ok2 :=
+           (b0 == 0xF0 && 0x90 ≤ b1 && b1 ≤ 0xBF) ||
+           (0xF1 ≤ b0 && b0 ≤ 0xF3 && isCont b1) ||
+           (b0 == 0xF4 && 0x80 ≤ b1 && b1 ≤ 0x8F)
+         if !ok2 then (false, 1)
+         else (match r1 with
+           | b2 :: r2 =>
+             if !isCont b2 then (false, 2)
+             else (match r2 with
+               | b3 :: _ => if isCont b3 then (true, 4) else (false, 3)
+               | [] => (false, 3))
+           | [] => (false, 2))
+       | [] => (false, 1))
+    else (false, 1)
+
+def utf8LossyAux : Nat → List Nat → List Nat
+  | 0, _ => []
+  | _ + 1, [] => []
+  | f + 1, b :: t =>
+    let (ok, n) := utf8Chunk (b :: t)
+    (if ok then (b :: t).take n else [0xEF, 0xBF, 0xBD]) ++ utf8LossyAux f ((b :: t).drop n)
+
+/-- `String::from_utf8_lossy(bytes)` as bytes -/
+def utf8Lossy (b : List Nat) : List Nat := utf8LossyAux b.length b
+
 end AgdbCodec
